@@ -94,7 +94,8 @@ def read_batches(crop, index_of):
     out = []
     for i in batch_files(crop):
         b = read_pickle(os.path.join(crop.location, "batches", f"xyz-batch-{i}.jbdmp"))
-        out.append((i, [index_of[freeze(kw)] for kw in b]))
+        # a sown setting that a direct run would never pass has no index: -1 (flagged by the oracle)
+        out.append((i, [index_of.get(freeze(kw), -1) for kw in b]))
     return out
 
 
